@@ -390,6 +390,8 @@ def _closed_subexprs(ast):
             return free(n[1], bound, infocus) or any(free(a, bound, infocus) for a in n[2])
         if t == 'array':
             return any(free(a, bound, infocus) for a in n[1])
+        if t == 'mapc':
+            return any(free(e, bound, infocus) for kv in n[1] for e in kv)
         kids = [c for c in n[1:] if isinstance(c, list)]
         return any(free(c, bound, infocus) for c in kids)
 
@@ -413,6 +415,10 @@ def _closed_subexprs(ast):
         elif t == 'array':
             for a in n[1]:
                 rec(a, False)
+        elif t == 'mapc':
+            for kv in n[1]:
+                for e in kv:
+                    rec(e, False)
         elif t == 'inline':
             rec(n[2], False)
         else:
